@@ -180,24 +180,68 @@ func c14R2(r *Report) {
 		return
 	}
 	r.Fn(mw)
+	// the reservation: a loop of noteInFlight(…, true) in maybeWebseed itself, or in a helper of package tor that
+	// maybeWebseed calls with the length to reserve (reserveChunks(t, first, l)); resLen is the length it covers
+	loopBoundOf := func(c *ssa.Call) ssa.Value {
+		for _, g := range guardsOf(c.Block()) {
+			if bo, ok := g.Cond.(*ssa.BinOp); ok && bo.Op == token.LSS && g.Pol {
+				if _, _, isCtr := loopCounter(bo.X); isCtr {
+					return stripIntConv(bo.Y)
+				}
+			}
+		}
+		return nil
+	}
+	isInc := func(c *ssa.Call) bool {
+		if !isCallNamed(c, "tor", "noteInFlight") {
+			return false
+		}
+		b, ok := constBool(c.Call.Args[len(c.Call.Args)-1])
+		return ok && b
+	}
 	var reserve *ssa.Call
+	var loopBound ssa.Value
 	for _, ci := range callsIn(mw) {
-		if c, ok := ci.(*ssa.Call); ok && isCallNamed(c, "tor", "noteInFlight") {
-			reserve = c
+		c, ok := ci.(*ssa.Call)
+		if !ok {
+			continue
+		}
+		if isInc(c) {
+			reserve, loopBound = c, loopBoundOf(c)
+			continue
+		}
+		h := c.Call.StaticCallee()
+		if h == nil || h.Blocks == nil || relPkg(h) != "tor" || c.Call.IsInvoke() || reserve != nil {
+			continue
+		}
+		for _, ci2 := range callsIn(h) {
+			c2, ok := ci2.(*ssa.Call)
+			if !ok || !isInc(c2) {
+				continue
+			}
+			bound := loopBoundOf(c2)
+			if bound == nil {
+				continue
+			}
+			k := -1
+			for i, prm := range h.Params {
+				if isInteger(prm.Type()) && mentions(bound, func(v ssa.Value) bool { return v == ssa.Value(prm) }, 0) {
+					if k >= 0 {
+						k = -2
+					} else {
+						k = i
+					}
+				}
+			}
+			if k >= 0 && k < len(c.Call.Args) {
+				r.Fn(h)
+				reserve, loopBound = c, stripIntConv(c.Call.Args[k])
+			}
 		}
 	}
 	if reserve == nil {
 		r.Fail("R2", "maybeWebseed/reservation", mw.Pos(), "maybeWebseed no longer reserves blocks")
 		return
-	}
-	// loop: bound l and offset o used by the reservation
-	var loopBound ssa.Value
-	for _, g := range guardsOf(reserve.Block()) {
-		if bo, ok := g.Cond.(*ssa.BinOp); ok && bo.Op == token.LSS && g.Pol {
-			if _, _, isCtr := loopCounter(bo.X); isCtr {
-				loopBound = stripIntConv(bo.Y)
-			}
-		}
 	}
 	isFetch := func(in ssa.Instruction) bool {
 		g, ok := in.(*ssa.Go)
